@@ -166,6 +166,29 @@ def case_month(mon, y, m, ks):
                                    "offset_s": offk, "expected_s": wantk},
                           "override.k=0-means-no-conversion"
                           if (k == 0 and offk == 0.0) else None)
+                # the override together with utc=True (either order), as a
+                # tuple form and through set(): the explicit count still wins
+                try:
+                    forms = {
+                        "utc=True, leap_seconds=k": Epoch(
+                            y, m, d, t[0], t[1], t[2], utc=True,
+                            leap_seconds=k).jde(),
+                        "leap_seconds=k, utc=True": Epoch(
+                            y, m, d, t[0], t[1], t[2], leap_seconds=k,
+                            utc=True).jde(),
+                        "tuple, leap_seconds=k": Epoch(
+                            (y, m, d, t[0], t[1], t[2]),
+                            leap_seconds=k).jde()}
+                    e_s = Epoch(2451545.0)
+                    e_s.set(y, m, d, t[0], t[1], t[2], leap_seconds=k)
+                    forms["set(..., leap_seconds=k)"] = e_s.jde()
+                except Exception as ex:
+                    forms = {"raised": repr(ex)}
+                mon.check("override.forms-agree",
+                          all(v == e_k.jde() for v in forms.values()),
+                          lambda: {"date": [y, m, d, list(t)], "k": k,
+                                   "leap_seconds=k alone": e_k.jde(),
+                                   "other_forms": forms})
                 errk = backk - _civil_seconds(y, m, d, *t)
                 mon.check("override.readback", abs(errk) <= 1.05e-3,
                           lambda: {"date": [y, m, d, list(t)], "k": k,
